@@ -379,8 +379,10 @@ impl Kv {
                             v.admissible.insert(R::StorageOutOfBounds);
                         }
                         if *len == 0 {
-                            // ownership of an empty range is not specified
+                            // accessibility / ownership of an empty range is not specified: whatever
+                            // the address, either outcome is accepted
                             v.optional.extend(wv);
+                            v.optional.extend([R::MemoryOwnership, R::MemoryOverflow, R::UninitalizedMemoryAccess]);
                         } else {
                             v.admissible.extend(wv);
                         }
